@@ -292,12 +292,17 @@ class CSSNamespaceRule(cssrule.CSSRule):
                 prefix = self._tokenvalue(prefixtoken)
         # update seq
         for i, x in enumerate(self._seq):
-            if x == self._prefix:
+            if x.type == 'prefix':
                 self._seq[i] = (prefix, 'prefix', None, None)
                 break
         else:
-            # put prefix at the beginning!
-            self._seq[0] = (prefix, 'prefix', None, None)
+            # no prefix item yet: put it in front of the namespace URI
+            for i, x in enumerate(self._seq):
+                if x.type == 'namespaceURI':
+                    self._seq.insert(i, prefix, 'prefix')
+                    break
+            else:
+                self._seq.insert(0, prefix, 'prefix')
 
         # set new prefix
         self._prefix = prefix
